@@ -835,7 +835,7 @@ func runRequest(c *reqCase) reqResult {
 	res.nontrivial = c.gerr != nil || hasCenc || anyEncFail || status == 503
 	res.tags = []string{
 		fmt.Sprintf("policy:%d", c.policy), fmt.Sprintf("status:%d", status), "cenc:" + map[bool]string{true: cencHdr, false: "none"}[hasCenc],
-		fmt.Sprintf("format:%d", ct.FormatType()), fmt.Sprintf("zstd-state:%d", c.zstd), fmt.Sprintf("families:%d", len(ref)),
+		fmt.Sprintf("format:%d", ct.FormatType()), fmt.Sprintf("zstd-state:%d", c.zstd), famTag(len(ref)),
 	}
 	if c.gerr != nil {
 		res.tags = append(res.tags, map[bool]string{true: "gather:partial", false: "gather:failed"}[len(ref) > 0])
@@ -955,6 +955,13 @@ var plausibleAE = []string{"gzip", "zstd", "gzip, deflate, br", "gzip, deflate, 
 	"identity", "gzip;q=0.5, zstd;q=0.5", "zstd;q=0.5, gzip;q=0.5", "*;q=0.1, gzip;q=0", "*;q=0.3, zstd;q=0", "br, *;q=0.2", "identity;q=0, gzip",
 	"gzip;q=0, *;q=0.1", "zstd;q=0, *", "gzip;q=0.001", "zstd;q=0.000, gzip;q=0.001", "deflate, gzip;q=0.9, identity;q=1", "x-gzip, gzip"}
 
+func famTag(n int) string {
+	if n >= 63 {
+		return "families:63-300"
+	}
+	return fmt.Sprintf("families:%d", n)
+}
+
 func genReqCase(r *emit.Rng, server bool) *reqCase {
 	c := &reqCase{server: server}
 	c.policy = []int{0, 0, 0, 1, 1, 1, 2, 2, 3}[r.Intn(9)]
@@ -984,6 +991,10 @@ func genReqCase(r *emit.Rng, server bool) *reqCase {
 	}
 	c.zstd = []int{1, 1, 1, 0, 0, 2}[r.Intn(6)]
 	n := []int{0, 1, 1, 2, 3, 5, 8}[r.Intn(7)]
+	many := r.Chance(1, 10) // many families in one response (periodic work in the encode loop), with and without Timeout
+	if many {
+		n = []int{64, 65, 100, 300, 63, 128, 129}[r.Intn(7)]
+	}
 	for i := 0; i < n; i++ {
 		if r.Chance(1, 9) {
 			c.fams = append(c.fams, genBrokenFamily(i))
@@ -1002,6 +1013,9 @@ func genReqCase(r *emit.Rng, server bool) *reqCase {
 	}
 	c.emptyShape = r.Intn(3)
 	c.timeout = r.Chance(1, 4)
+	if many {
+		c.timeout = r.Bool()
+	}
 	switch r.Intn(16) {
 	case 0, 1: // DisableCompression x OfferedCompressions: disabling wins whatever is offered and accepted
 		c.pair = "disable+offers"
